@@ -108,11 +108,11 @@ def toeplitz_matmul(toeplitz_column, toeplitz_row, tensor):
         raise RuntimeError("c and r should have the same length (Toeplitz matrices are necessarily square).")
 
     toeplitz_shape = torch.Size((*toeplitz_column.shape, toeplitz_row.size(-1)))
-    output_shape = broadcasting._matmul_broadcast_shape(toeplitz_shape, tensor.shape)
-    broadcasted_t_shape = output_shape[:-1] if tensor.dim() > 1 else output_shape
-
-    if tensor.ndimension() == 1:
+    is_vector = tensor.ndimension() == 1
+    if is_vector:
         tensor = tensor.unsqueeze(-1)
+    output_shape = broadcasting._matmul_broadcast_shape(toeplitz_shape, tensor.shape)
+    broadcasted_t_shape = output_shape[:-1]
     toeplitz_column = toeplitz_column.expand(*broadcasted_t_shape)
     toeplitz_row = toeplitz_row.expand(*broadcasted_t_shape)
     tensor = tensor.expand(*output_shape)
@@ -145,6 +145,8 @@ def toeplitz_matmul(toeplitz_column, toeplitz_row, tensor):
 
     output = ifft(fft_product).real.mT
     output = output[..., :orig_size, :]
+    if is_vector:
+        output = output.squeeze(-1)
     return output
 
 
